@@ -47,12 +47,15 @@ BadKeys  == {<<U_bad1, "">>, <<U_bad1, "prefix">>, <<U_bad2, "wildcard">>, <<U_a
              <<U_empty, "">>, <<U_bad3, "prefix">>, <<U_up, "">>, <<U_ab, "bogus">>}
 
 FeatAll  == <<"subscriber:publisher_identification", "callee:call_canceling", "callee:call_timeout",
-              "callee:caller_identification", "callee:progressive_call_results">>
+              "callee:caller_identification", "callee:progressive_call_results",
+              "callee:progressive_call_invocations", "caller:progressive_call_invocations">>
 FeatSets == {FeatAll, <<>>,
              <<"callee:call_canceling">>,
              <<"callee:progressive_call_results", "callee:call_timeout">>,
              <<"subscriber:publisher_identification", "callee:caller_identification",
-               "callee:call_canceling", "callee:progressive_call_results">>}
+               "callee:call_canceling", "callee:progressive_call_results">>,
+             <<"callee:call_canceling", "callee:progressive_call_invocations", "caller:progressive_call_invocations">>,
+             <<"caller:progressive_call_invocations", "callee:progressive_call_invocations">>}
 
 Users == <<[id |-> "alice", role |-> "user"], [id |-> "bob", role |-> "admin"], [id |-> "carol", role |-> "user"]>>
 
@@ -294,6 +297,29 @@ GCall ==
        ELSE \E k \in R(BestRegs(Cur, u)) : \E callee \in R(Eligible(regs[k])) :
               /\ \A c \in Rng(regs[k].callees) : ~sess[c].stalled      \* the INVOCATION must be observable
               /\ Step(i, CallFx(Cur, s, N, u, o, Tag, k, callee, NextId(used.inv[callee])))
+
+\* progressive call invocations: the first chunk (callers with and without the feature, callees with
+\* and without), further chunks of a call in progress, the final chunk
+GCallChunk ==
+  LET open == {c \in DOMAIN calls : InProgress(Cur, c) /\ c[1] \in J} IN
+  \E first \in R(1..3) :
+    IF open # {} /\ first # 1
+    THEN \E c \in R(open) : \E more \in W(<<TRUE, FALSE, FALSE>>) :
+           LET hits == {u \in Targets : \E k \in BestRegs(Cur, u) : regs[k].id = calls[c].reg} IN
+           /\ hits # {}
+           /\ \E u \in R(hits) : \E k \in R({kk \in BestRegs(Cur, u) : regs[kk].id = calls[c].reg}) :
+                LET o == [O0 EXCEPT !.prog = more]
+                    i == [In0 EXCEPT !.op = "call", !.s = c[1], !.req = c[2], !.uri = u, !.tag = Tag, !.o = o]
+                IN ~sess[calls[c].callee].stalled /\ Step(i, ChunkFx(Cur, c[1], c[2], u, o, Tag, k))
+    ELSE \E s \in J : \E hit \in R(1..4) :
+         \E u \in R(LET routable == {t \in Targets : BestRegs(Cur, t) # {}} IN IF routable # {} /\ hit # 1 THEN routable ELSE Targets) :
+           LET o == [O0 EXCEPT !.prog = TRUE, !.rprog = hit = 2]
+               i == [In0 EXCEPT !.op = "call", !.s = s, !.req = N, !.uri = u, !.tag = Tag, !.o = o]
+           IN IF BestRegs(Cur, u) = {} THEN Step(i, CallFx(Cur, s, N, u, o, Tag, <<>>, "", 0))
+              ELSE IF ~Has(Cur, s, "caller:progressive_call_invocations") THEN Step(i, LeaveFx(Cur, s, "violation", ""))
+              ELSE \E k \in R(BestRegs(Cur, u)) : \E callee \in R(Eligible(regs[k])) :
+                     /\ \A cc \in Rng(regs[k].callees) : ~sess[cc].stalled
+                     /\ Step(i, CallFx(Cur, s, N, u, o, Tag, k, callee, NextId(used.inv[callee])))
 
 GCancel ==
   \E s \in J :
@@ -575,6 +601,7 @@ GenNext ==
        [] kind = "callsh" -> GCallShared
        [] kind = "unreg"  -> GUnregister
        [] kind = "call"   -> GCall
+       [] kind = "pcall"  -> GCallChunk
        [] kind = "cancel" -> GCancel
        [] kind = "ckill"  -> GCancelKill
        [] kind = "answer" -> GAnswer
